@@ -26,7 +26,7 @@ Still NOT covered (DESIGN 4 C13): per-field faithfulness of the built-in compone
 component's fields and a few service::telemetry fields are compared), redaction / the effective configuration handed
 to extensions (conf.Marshal), the nested Validate() rules of built-in components themselves.
 """
-import json, os, re
+import json, os, re, random
 import vlib, graphlib
 
 PG = os.path.join(vlib.VERIF, "specs", "PipelineGraph")
@@ -481,6 +481,7 @@ def first_mismatch(seqs, res):
 
 
 def run_histories(c, binp, seqs, label, procs=4):
+    procs = procs if len(seqs) < 50000 else 6
     """The histories are split into `procs` contiguous chunks, each chunk is loaded by ONE process on one goroutine, history
     after history.  Every load is compared with its own specification.  Because process-wide state may carry over from
     EARLIER histories of the same process, a mismatch is confirmed (and minimised) in a fresh process before it is reported."""
@@ -536,6 +537,114 @@ CHECK_DEADLOCK FALSE
 """ % (loads, writes, q(defects), "TRUE" if share else "FALSE", invs)
 
 
+class Part:
+    """One independent part of the check, run on its own thread: own seeded PRNG (so that the documents do not depend on
+    thread scheduling) and own state/transition counters (added up by the main thread); everything else is the Check."""
+
+    def __init__(self, c, k):
+        self.c, self.rng = c, random.Random(c.seed * 1000 + k)
+        self.states = self.transitions = self.total = self.nontrivial = 0
+
+    def __getattr__(self, name):
+        return getattr(self.c, name)
+
+    def tlc(self, *a, **kw):
+        count = kw.pop("count", True)
+        r = self.c.tlc(*a, count=False, **kw)
+        if count:
+            self.states += r.distinct
+            self.transitions += r.generated
+        return r
+
+    def tlc_must_pass(self, *a, **kw):
+        r = self.c.tlc_must_pass(*a, count=False, **kw)
+        self.states += r.distinct
+        self.transitions += r.generated
+        return r
+
+
+def part_docs(pc, binp, k, u):
+    """clauses (a) and (b): configurations x defect injections x written keys"""
+    args = u[:8]
+    if u[8]:
+        # written-key universes: design invariant and generator in one (single worker) run
+        r = pc.tlc("ConfigValidate", "ConfigValidateGen", cfg_text=cfg_text(*args, "WalkSound EmitDoc", maxkeys=u[8]), workers=1,
+                   files=PGFILES, timeout=1800, label="keys%d" % k, count=True, heap="8g")
+    else:
+        # (the WriteKey disjunct quantifies over a state-dependent set: TLC reports it under the name VNext)
+        pc.tlc_must_pass("ConfigValidate", "ConfigValidate", cfg_text=cfg_text(*args, "WalkSound"), coverage=True, files=PGFILES,
+                         vacuous_ok=("WriteKey", "VNext"), timeout=1500, label="design%d" % k)
+        r = pc.tlc("ConfigValidate", "ConfigValidateGen", cfg_text=cfg_text(*args, "EmitDoc"), workers=1, files=PGFILES,
+                   timeout=1500, label="gen%d" % k, count=False, heap="8g")
+    if not r.ok:
+        raise vlib.Inconclusive("generator failed: %s\n%s" % (r.error, (r.trace_text or r.out)[-1500:]))
+    docs = dedup(r.printed)
+    if not docs:
+        raise vlib.Inconclusive("generator printed nothing")
+    ids = sorted(set(u[1] + u[2] + u[3] + u[4] + u[6]))
+    res, texts = run_docs(pc, binp, docs, ids, "u%d" % k)
+    pc.total += len(docs)
+    pc.nontrivial += sum(1 for d in docs if d["reject"])
+    nkeys = sum(1 for d in docs if d["keys"])
+    if u[8] and not (any(d["keys"] and d["reject"] for d in docs) and any(d["keys"] and not d["reject"] for d in docs)):
+        raise vlib.Inconclusive("vacuous: the written-key universe has no rejected key or no accepted twin")
+    pc.log("universe %d: %d configurations (%d to be rejected; %d with a written key, %d of them accepted twins)" % (
+        k, len(docs), sum(1 for d in docs if d["reject"]), nkeys, sum(1 for d in docs if d["keys"] and all(x["accepted"] for x in d["keys"]))))
+    pick = [i for i, d in enumerate(docs) if (d["keys"] if u[8] else len(d["defects"]) >= 2) and d["pipes"]]
+    if pick and k <= 1:
+        i = pick[len(pick) // 2]
+        pc.sample(dict(kind="loaded document", doc=texts[i], specified=dict(reject=docs[i]["reject"], defects=docs[i]["defects"]),
+                       observed=dict(stage=res[i]["stage"], err=res[i]["err"])))
+
+
+def part_walk(pc, binp, k, w):
+    """clause (c): value trees"""
+    r = pc.tlc("ConfigValidate", "ValidateWalkGen", cfg_text=walk_cfg(*w, "WalkComplete WalkPaths OnlyPromotedExtra EmitTree"), workers=1,
+               timeout=1800, label="walk%d" % k, count=True, heap="8g")
+    if not r.ok:
+        raise vlib.Inconclusive("value-tree design check / generator failed: %s\n%s" % (r.error, (r.trace_text or r.out)[-1500:]))
+    trees = dedup(r.printed)
+    if not trees:
+        raise vlib.Inconclusive("value-tree generator printed nothing")
+    res = run_trees(pc, binp, trees, "w%d" % k)
+    pc.total += len(trees)
+    pc.nontrivial += sum(1 for t in trees if t["failing"])
+    pick = [i for i, t in enumerate(trees) if len(t["failing"]) >= 2 and t["nodes"]]
+    if pick and k == 0:
+        i = pick[len(pick) // 2]
+        pc.sample(dict(kind="walked value tree", tree={x: trees[i][x] for x in ("nodes", "wraps", "bad")},
+                       specified=[["::".join(t for t, _ in seg_texts(e["path"], rule_id(e["rule"]))), rule_id(e["rule"])] for e in trees[i]["expected"]],
+                       observed=res[i]["reports"]))
+
+
+def part_overlay(pc, binp, k, ov):
+    """clause (d): histories of loads in one process, defaults overlaid by exactly the written keys"""
+    nl, nw, df = ov
+    r = pc.tlc("ConfigValidate", "ConfigOverlayGen", cfg_text=overlay_cfg(nl, nw, df, "Faithful EmitHist"), workers=1, timeout=1800,
+               label="overlay%d" % k, count=True, heap="8g")
+    if not r.ok:
+        raise vlib.Inconclusive("overlay design check / generator failed: %s\n%s" % (r.error, (r.trace_text or r.out)[-1500:]))
+    seqs = dedup(r.printed)
+    if not seqs:
+        raise vlib.Inconclusive("overlay generator printed nothing")
+    pc.rng.shuffle(seqs)                      # the order of the histories in the process is seeded
+    res = run_histories(pc, binp, seqs, "o%d" % k)
+    pc.total += len(seqs)
+    pc.nontrivial += sum(1 for sq in seqs if len(sq) >= 2 and any(ld["w"] for ld in sq[:-1]))
+    if k == 0:
+        pick = [i for i, sq in enumerate(seqs) if len(sq) == nl and sq[0]["w"] and sq[0]["w"][0]["s"].startswith("tl.s") and not sq[-1]["w"]]
+        if pick:
+            i = pick[0]
+            pc.sample(dict(kind="history of loads", docs=[ld["_doc"] for ld in seqs[i]],
+                           specified_last={s: v for s, v in seqs[i][-1]["typed"].items() if s.startswith("tl.")},
+                           observed_last=dict(stage=res[i]["loads"][-1]["stage"], sampling=(res[i]["loads"][-1].get("view") or {}).get("sampling"))))
+        # the memoised-defaults design (defaults built once per process) is refuted by the model itself
+        r = pc.tlc("ConfigValidate", "ConfigOverlay", cfg_text=overlay_cfg(2, 1, [], "Faithful", share=True), workers=1, timeout=600,
+                   label="overlay_shared", count=False)
+        if r.ok or not r.error or r.error[0] != "invariant":
+            raise vlib.Inconclusive("ConfigOverlay with ShareDefaults=TRUE should violate Faithful (the model lost its bite): %s" % (r.error,))
+
+
 def run(c):
     qk = c.quick()
     binp = graphlib.go_build(c, "cfgvalidate")
@@ -558,95 +667,34 @@ def run(c):
     universes = [("Pipes2", ["r1"], ["p1", "p2"], ["e1"], ["ca1"], 4, ["x1", "x2"], 2, 0),
                  ("Pipes2", ["r1"], ["p1"], ["e1"], ["ca1"], 3, ["x1"], 0, 1)] if qk else \
                 [("Pipes2", ["r1"], ["p1", "p2"], ["e1"], ["ca1"], 5, ["x1", "x2"], 2, 0),
+                 ("Pipes2", ["r1"], ["p1"], ["e1"], ["ca1"], 3, ["x1"], 1, 1),
                  ("Pipes2", ["r1"], ["p1", "p2"], ["e1"], ["ca1"], 6, ["x1"], 2, 0),
                  ("Pipes3", ["r1"], ["p1"], ["e1"], ["ca1", "cs1"], 4, ["x1"], 2, 0),
                  ("Pipes2", ["r1"], ["p1", "p2"], ["e1"], ["ca1"], 4, ["x1"], 3, 0),
                  ("Pipes3", ["r1", "r2"], ["p1"], ["e1"], ["ca1"], 5, ["x1", "x2"], 2, 0),
-                 ("Pipes2", ["r1"], ["p1", "p2"], ["e1"], ["ca1"], 6, ["x1", "x2"], 2, 0),
-                 ("Pipes2", ["r1"], ["p1"], ["e1"], ["ca1"], 3, ["x1"], 1, 1),
-                 ("Pipes2", ["r1"], ["p1"], ["e1"], ["ca1"], 2, ["x1"], 1, 2),
+                 ("Pipes2", ["r1"], ["p1"], ["e1"], ["ca1"], 2, ["x1"], 0, 2),
                  ("Pipes2", ["r1", "r2"], ["p1"], ["e1"], ["ca1"], 4, ["x1"], 0, 1)]
-    total = nontrivial = 0
-    for k, u in enumerate(universes):
-        args = u[:8]
-        if u[8]:
-            # written-key universes: design invariant and generator in one (single worker) run
-            r = c.tlc("ConfigValidate", "ConfigValidateGen", cfg_text=cfg_text(*args, "WalkSound EmitDoc", maxkeys=u[8]), workers=1,
-                      files=PGFILES, timeout=1800, label="keys%d" % k, count=True, heap="8g")
-        else:
-            # (the WriteKey disjunct quantifies over a state-dependent set: TLC reports it under the name VNext)
-            c.tlc_must_pass("ConfigValidate", "ConfigValidate", cfg_text=cfg_text(*args, "WalkSound"), coverage=True, files=PGFILES,
-                            vacuous_ok=("WriteKey", "VNext"), timeout=1500, label="design%d" % k)
-            r = c.tlc("ConfigValidate", "ConfigValidateGen", cfg_text=cfg_text(*args, "EmitDoc"), workers=1, files=PGFILES,
-                      timeout=1500, label="gen%d" % k, count=False, heap="8g")
-        if not r.ok:
-            raise vlib.Inconclusive("generator failed: %s\n%s" % (r.error, r.out[-1500:]))
-        docs = dedup(r.printed)
-        if not docs:
-            raise vlib.Inconclusive("generator printed nothing")
-        ids = sorted(set(u[1] + u[2] + u[3] + u[4] + u[6]))
-        res, texts = run_docs(c, binp, docs, ids, "u%d" % k)
-        total += len(docs)
-        nontrivial += sum(1 for d in docs if d["reject"])
-        nkeys = sum(1 for d in docs if d["keys"])
-        if u[8] and not (any(d["keys"] and d["reject"] for d in docs) and any(d["keys"] and not d["reject"] for d in docs)):
-            raise vlib.Inconclusive("vacuous: the written-key universe has no rejected key or no accepted twin")
-        c.log("universe %d: %d configurations (%d to be rejected; %d with a written key, %d of them accepted twins)" % (
-            k, len(docs), sum(1 for d in docs if d["reject"]), nkeys, sum(1 for d in docs if d["keys"] and all(x["accepted"] for x in d["keys"]))))
-        pick = [i for i, d in enumerate(docs) if (d["keys"] if u[8] else len(d["defects"]) >= 2) and d["pipes"]]
-        if pick:
-            i = pick[len(pick) // 2]
-            c.sample(dict(kind="loaded document", doc=texts[i], specified=dict(reject=docs[i]["reject"], defects=docs[i]["defects"]),
-                          observed=dict(stage=res[i]["stage"], err=res[i]["err"])))
-
-    # clause (c): value trees
     walks = [(2, 1, 1, 2), (2, 2, 1, 1)] if qk else [(2, 2, 1, 2), (3, 3, 1, 1), (2, 1, 1, 4)]
-    ntrees = 0
-    for k, w in enumerate(walks):
-        r = c.tlc("ConfigValidate", "ValidateWalkGen", cfg_text=walk_cfg(*w, "WalkComplete WalkPaths OnlyPromotedExtra EmitTree"), workers=1,
-                  timeout=1500, label="walk%d" % k, count=True, heap="8g")
-        if not r.ok:
-            raise vlib.Inconclusive("value-tree design check / generator failed: %s\n%s" % (r.error, (r.trace_text or r.out)[-1500:]))
-        trees = dedup(r.printed)
-        if not trees:
-            raise vlib.Inconclusive("value-tree generator printed nothing")
-        res = run_trees(c, binp, trees, "w%d" % k)
-        ntrees += len(trees)
-        nontrivial += sum(1 for t in trees if t["failing"])
-        pick = [i for i, t in enumerate(trees) if len(t["failing"]) >= 2 and t["nodes"]]
-        if pick and k == 0:
-            i = pick[len(pick) // 2]
-            c.sample(dict(kind="walked value tree", tree={x: trees[i][x] for x in ("nodes", "wraps", "bad")},
-                          specified=[["::".join(t for t, _ in seg_texts(e["path"], rule_id(e["rule"]))), rule_id(e["rule"])] for e in trees[i]["expected"]],
-                          observed=res[i]["reports"]))
-    total += ntrees
-
-    # clause (d): histories of loads in one process, defaults overlaid by exactly the written keys
-    ovs = [(2, 1, ["dangling"])] if qk else [(3, 1, ["dangling"]), (2, 1, ["dangling", "unknownkey"]), (2, 2, [])]
-    for k, (nl, nw, df) in enumerate(ovs):
-        r = c.tlc("ConfigValidate", "ConfigOverlayGen", cfg_text=overlay_cfg(nl, nw, df, "Faithful EmitHist"), workers=1, timeout=1800,
-                  label="overlay%d" % k, count=True, heap="8g")
-        if not r.ok:
-            raise vlib.Inconclusive("overlay design check / generator failed: %s\n%s" % (r.error, (r.trace_text or r.out)[-1500:]))
-        seqs = dedup(r.printed)
-        if not seqs:
-            raise vlib.Inconclusive("overlay generator printed nothing")
-        c.rng.shuffle(seqs)                      # the order of the histories in the process is seeded
-        res = run_histories(c, binp, seqs, "o%d" % k)
-        total += len(seqs)
-        nontrivial += sum(1 for sq in seqs if len(sq) >= 2 and any(ld["w"] for ld in sq[:-1]))
-        if k == 0:
-            pick = [i for i, sq in enumerate(seqs) if len(sq) == nl and sq[0]["w"] and sq[0]["w"][0]["s"].startswith("tl.s") and not sq[-1]["w"]]
-            if pick:
-                i = pick[0]
-                c.sample(dict(kind="history of loads", docs=[ld["_doc"] for ld in seqs[i]],
-                              specified_last={s: v for s, v in seqs[i][-1]["typed"].items() if s.startswith("tl.")},
-                              observed_last=dict(stage=res[i]["loads"][-1]["stage"], sampling=(res[i]["loads"][-1].get("view") or {}).get("sampling"))))
-    # the memoised-defaults design (defaults built once per process) is refuted by the model itself
-    r = c.tlc("ConfigValidate", "ConfigOverlay", cfg_text=overlay_cfg(2, 1, [], "Faithful", share=True), workers=1, timeout=600,
-              label="overlay_shared", count=False)
-    if r.ok or not r.error or r.error[0] != "invariant":
-        raise vlib.Inconclusive("ConfigOverlay with ShareDefaults=TRUE should violate Faithful (the model lost its bite): %s" % (r.error,))
+    ovs = [(2, 1, ["dangling", "unknownkey"])] if qk else [(3, 1, []), (2, 1, ["dangling", "unknownkey"]), (2, 2, [])]
+    # the parts are independent: they run side by side (own PRNG each, see Part)
+    from concurrent.futures import ThreadPoolExecutor
+    jobs = [(part_docs, k, u) for k, u in enumerate(universes)] + [(part_walk, k, w) for k, w in enumerate(walks)] + \
+           [(part_overlay, k, ov) for k, ov in enumerate(ovs)]
+    parts = [Part(c, n) for n in range(len(jobs))]
+    with ThreadPoolExecutor(max_workers=5 if qk else 4) as ex:
+        futs = [ex.submit(fn, pc, binp, k, arg) for pc, (fn, k, arg) in zip(parts, jobs)]
+        errs = []
+        for f in futs:
+            try:
+                f.result()
+            except vlib.Inconclusive as e:
+                errs.append(e)
+    if errs:
+        raise errs[0]
+    total = sum(pc.total for pc in parts)
+    nontrivial = sum(pc.nontrivial for pc in parts)
+    c.states += sum(pc.states for pc in parts)
+    c.transitions += sum(pc.transitions for pc in parts)
     c.traces_validated += total
     c.evaluations = total
     c.exhaustive = True
